@@ -637,4 +637,8 @@ BUILDERS = {"lut_mixed": lut_mixed, "shape_out": shape_out, "transpose_perm": tr
 
 
 def build(rng, idx, pattern, variant=None):
+    if pattern == "near_scale" and pattern not in BUILDERS:
+        import gen_nearscale        # family of its own file (harness/gen_nearscale.py)
+
+        BUILDERS[pattern] = gen_nearscale.near_scale
     return BUILDERS[pattern](rng, idx, variant)
